@@ -262,7 +262,29 @@ def run(ctx):
     for k, envname, need in rows:
         gf, gr = getter_field(W, ENVC, GETTER.get(k, k))
         ws = ewrites.get(gf, [])
-        src = [w for w in ws if deep_contains(W, w[0], lambda s: is_call(s) and strip_generics(s[1]).endswith("env::var") and s[2][0] == ("str", envname))]
+        is_var = lambda s: is_call(s) and strip_generics(s[1]).endswith("env::var") and s[2][0] == ("str", envname)
+        src = [w for w in ws if deep_contains(W, w[0], is_var)]
+        if not src:
+            # a value chosen by comparing the variable's text (`matches!(v.as_str(), "yes" | "on")` assigns constants in the arms of a match on the
+            # text): the write is control-dependent on a comparison of the variable's payload, not merely on its presence
+            for w in ws:
+                blocks = [w[1]]
+                if w[2] != "term":
+                    rv0 = enew.blocks[w[1]].stmts[w[2]]["rv"]
+                    o0 = (rv0["op"].get("mv") or rv0["op"].get("cp")) if rv0["k"] == "use" else None
+                    if o0 and not o0.get("p"):
+                        # the value comes from a temporary that the arms of a match set to constants: look at where those are assigned
+                        blocks = [d[0] for d in enew.defs().get(o0["l"], []) if d[2] == "whole"] or blocks
+                facts = [f for b_ in blocks for f in flow.facts_at(EIN, b_)]
+                dep = False
+                for f in facts:
+                    tm = f[1]
+                    if isinstance(tm, tuple) and tm and tm[0] == "discr":
+                        continue        # presence of the variable only
+                    if values.contains(W.expand(tm) if isinstance(tm, tuple) else tm, is_var) or deep_contains(W, tm, is_var):
+                        dep = True
+                if dep:
+                    src.append(w)
         ctx.check("wiring", "env/%s" % k, bool(src), "%s is stored in field %s, which %s() returns" % (envname, gf, GETTER.get(k)),
                   "the field %s returned by %s() is not loaded from %s" % (gf, GETTER.get(k), envname), enew.loc(ws[0][1]) if ws else ctx.loc(enew))
         for w in src:
